@@ -73,6 +73,9 @@ Verdict(e) ==
     [] e.op = "extrude" ->   (IF e.res # Repeat(e.data, <<1>> \o e.shape, <<e.num>> \o [i \in 1..Len(e.shape) |-> 1]) THEN {"ExtrusionRepeats"} ELSE {})
                         \cup (IF e.intratio # 1000000 THEN {"IntegralTimesHeight"} ELSE {})
                         \cup (IF e.dims_kept = 0 THEN {"ExtentKept"} ELSE {})
+    [] e.op = "equalize" ->  (IF e.dims_kept = 0 THEN {"ExtentKept"} ELSE {})
+                        \cup (IF e.uniform = 0 \/ e.side_is_min = 0 THEN {"VoxelSidesEqualised"} ELSE {})
+    [] e.op = "input" ->     (IF e.unchanged = 0 THEN {"InputLeftUnchanged"} ELSE {})
     [] e.op = "superpose" -> (IF e.raised = 1 THEN {"SuperposeTotal"}
                               ELSE (IF e.cshape # e.rshape THEN {"CommonCanvas"}
                                     ELSE IF e.res # Canvas(e.cshape, e.imgs) THEN {"SuperpositionAddsArrays"} ELSE {})
